@@ -32,7 +32,7 @@ def gen_sim(n, b, pool, num, seed):
 
 
 def session(sc):
-    e = dict(os.environ, PYTHONPATH=REPO + os.pathsep + os.path.join(VERIF, "harness"), PYTHONHASHSEED="0", PYTHONDONTWRITEBYTECODE="1")
+    e = driver_env()
     e[GUARD] = "1"
     p = subprocess.run([PY, os.path.join(VERIF, "harness", "drivers", "drv_session.py")], input=json.dumps(sc), stdout=subprocess.PIPE,
                        stderr=subprocess.PIPE, text=True, env=e, timeout=600, cwd=scratch())
